@@ -19,31 +19,11 @@ import PV.C02.LemmasReload
 import PV.C02.LemmasBT
 import PV.C02.LemmasSC
 import PV.C02.LemmasSpecCount
+import PV.C02.LemmasProps
 namespace PV.C02
 open List
 
 variable {σ : Type}
-
-/-- Well-formed operations: values are `uint64`, import payloads are well-formed roaring data. -/
-def OpOK : Op → Prop
-  | .add vs => ∀ v ∈ vs, v < 2 ^ 64
-  | .remove vs => ∀ v ∈ vs, v < 2 ^ 64
-  | .addN vs => ∀ v ∈ vs, v < 2 ^ 64
-  | .removeN vs => ∀ v ∈ vs, v < 2 ^ 64
-  | .importSet gs => GroupsOK gs
-  | .importClear gs => GroupsOK gs
-  | _ => True
-
-theorem good_init (C : Coll σ) (ok : CollOK C) : Good C ok (BM.init C) := by
-  have hl : ∀ k, lk C C.init k = none := by intro k; unfold lk; rw [ok.init_ents]; rfl
-  refine ⟨ok.init, ⟨?_, ?_, ?_⟩⟩
-  · intro k i h; rw [show (BM.init C).c = C.init from rfl, hl] at h; cases h
-  · intro k i h; rw [show (BM.init C).c = C.init from rfl, hl] at h; cases h
-  · intro k k' i h; rw [show (BM.init C).c = C.init from rfl, hl] at h; cases h
-
-theorem slice_init (C : Coll σ) (ok : CollOK C) : slice C (BM.init C) = [] := by
-  unfold slice iterEnts
-  rw [show (BM.init C).c = C.init from rfl, ok.init_ents]; rfl
 
 /-- **Refinement of one step.** Under the invariant, a step of the model of the code does to the
 value list exactly what the set specification says, returns exactly what it says, and
@@ -132,7 +112,8 @@ theorem C02_coherent_step_slice (p : Policy) (b : BM SC) (op : Op)
     (hg : Good scColl scOK b) (hop : OpOK op) : SC.Coherent (step scColl p b op).1.c :=
   (C02_coherent_step scColl scOK p b op hg hop).inv.2.1
 
-theorem history_acc (C : Coll σ) (ok : CollOK C) (p : Policy) (ops : List Op) :
+/-- Histories with an output accumulator (the induction behind `C02_history_from`). -/
+theorem C02_history_acc (C : Coll σ) (ok : CollOK C) (p : Policy) (ops : List Op) :
     ∀ (b : BM σ) (outs : List Out), Good C ok b → (∀ op ∈ ops, OpOK op) →
     Good C ok (ops.foldl (fun acc op => ((step C p acc.1 op).1, acc.2 ++ [(step C p acc.1 op).2])) (b, outs)).1 ∧
     slice C (ops.foldl (fun acc op => ((step C p acc.1 op).1, acc.2 ++ [(step C p acc.1 op).2])) (b, outs)).1
@@ -157,7 +138,7 @@ theorem C02_history_from (C : Coll σ) (ok : CollOK C) (p : Policy) (b : BM σ) 
     Good C ok (run C p b ops).1 ∧
     slice C (run C p b ops).1 = (Spec.run (slice C b) ops).1 ∧
     (run C p b ops).2 = (Spec.run (slice C b) ops).2 :=
-  history_acc C ok p ops b [] hg hops
+  C02_history_acc C ok p ops b [] hg hops
 
 /-- **Every history from the empty bitmap**, any collection satisfying the laws. -/
 theorem C02_history (C : Coll σ) (ok : CollOK C) (p : Policy) (ops : List Op)
@@ -185,12 +166,6 @@ theorem C02_history_slice (p : Policy) (ops : List Op) (hops : ∀ op ∈ ops, O
 
 /-- `|new Δ old|` for two sets one of which contains the other. -/
 def delta (s s' : List Nat) : Nat := (s'.length - s.length) + (s.length - s'.length)
-
-theorem groupValues_nodup {gs : List (Nat × Cell)} (h : GroupsOK gs) : (Spec.groupValues gs).Nodup := by
-  have : Asc (flat gs) := asc_flat ⟨by
-    have := h.1; unfold KeysAsc Asc at this; rw [pairwise_map] at this; exact this,
-    fun e he => (h.2 e he).2⟩
-  exact asc_nodup this
 
 /-- **Each mutation reports exactly how many bits it changed.**  For a set `s` (ascending list):
 `Add`/`Remove` report whether the set changed; `AddN`/`RemoveN`/imports report `|new Δ old|`, and
